@@ -689,6 +689,18 @@ func init() {
 			gen{"halfbyte-prefix", []string{"\xff\xf0", "\xff\xf1"}}, gen{"halfbyte-prefix", []string{"a\xff\xf0b", "a\xff\xffc", "b"}},
 			gen{"emptykey-root", []string{"", "\x00", "\x00\x00", "a"}},
 			gen{"longruns", []string{strings.Repeat("x", 200) + "a", strings.Repeat("x", 200) + "b", strings.Repeat("x", 200) + "b" + strings.Repeat("\xff", 129)}})
+		// key counts around the multiples of 64 (leaf and node counts that fill their bitmap words
+		// exactly): 63, 64, 65, 127, 128, 129 and one seed-dependent multiple
+		{
+			r := c.R.Fork()
+			for _, n := range []int{63, 64, 65, 127, 128, 129, 64 * (3 + r.Intn(5))} {
+				ks := make([]string, n)
+				for i := range ks {
+					ks[i] = fmt.Sprintf("%04d", i*3)
+				}
+				sets = append(sets, gen{"count-mod-64", ks})
+			}
+		}
 		for i := 0; len(sets) < nsets; i++ {
 			r := c.R.Fork()
 			if i%3 == 2 {
